@@ -13,14 +13,17 @@ IMPL = dict(NullAware=True, HierOnOriginal=True)
 INTENDED = dict(NullAware=True, HierOnOriginal=True)
 AB = {"a", "b", "NULL"}
 GEN = {
-    "quick": [dict(consts=dict(NSet={1, 2, 3, 4}, LevelSet={1, 2}, Alphabet=AB, CapSet={2, 100})),
-              dict(consts=dict(NSet={5, 6, 8, 20, 60}, LevelSet={1, 2, 3}, Alphabet={"a", "b", "c", "NULL"}, CapSet={1, 2, 3, 5, 7, 100}), simulate=600)],
-    "thorough": [dict(consts=dict(NSet={1, 2, 3, 4, 5}, LevelSet={1, 2}, Alphabet=AB, CapSet={2, 3, 100})),
-                 dict(consts=dict(NSet={6}, LevelSet={1}, Alphabet=AB, CapSet={1, 2, 3, 4, 5, 100})),
-                 dict(consts=dict(NSet={5, 6, 8, 20, 60}, LevelSet={1, 2, 3}, Alphabet={"a", "b", "c", "NULL"}, CapSet={1, 2, 3, 5, 7, 100}), simulate=9000)],
+    "quick": [dict(consts=dict(NSet={1, 2, 3, 4}, LevelSet={1, 2}, Alphabet=AB, CapSet={2, 100}, SpellSet={"plain"}, OrderSet={"asc"})),
+              # colliding spellings and group_by columns stored in reverse order, two levels, every key sequence
+              dict(consts=dict(NSet={2, 3}, LevelSet={2}, Alphabet=AB, CapSet={2, 100}, SpellSet={"plain", "collide"}, OrderSet={"asc", "rev"})),
+              dict(consts=dict(NSet={5, 6, 8, 20, 60}, LevelSet={1, 2, 3}, Alphabet={"a", "b", "c", "NULL"}, CapSet={1, 2, 3, 5, 7, 100}, SpellSet={"plain", "collide"}, OrderSet={"asc", "rev"}), simulate=600)],
+    "thorough": [dict(consts=dict(NSet={1, 2, 3, 4, 5}, LevelSet={1, 2}, Alphabet=AB, CapSet={2, 3, 100}, SpellSet={"plain"}, OrderSet={"asc"})),
+                 dict(consts=dict(NSet={2, 3, 4}, LevelSet={2}, Alphabet=AB, CapSet={2, 100}, SpellSet={"plain", "collide"}, OrderSet={"asc", "rev"})),
+                 dict(consts=dict(NSet={6}, LevelSet={1}, Alphabet=AB, CapSet={1, 2, 3, 4, 5, 100}, SpellSet={"plain"}, OrderSet={"asc"})),
+                 dict(consts=dict(NSet={5, 6, 8, 20, 60}, LevelSet={1, 2, 3}, Alphabet={"a", "b", "c", "NULL"}, CapSet={1, 2, 3, 5, 7, 100}, SpellSet={"plain", "collide"}, OrderSet={"asc", "rev"}), simulate=9000)],
 }
-MODEL = {"quick": dict(NSet={1, 2, 3, 4}, LevelSet={1, 2}, Alphabet=AB, CapSet={2, 100}),
-         "thorough": dict(NSet={1, 2, 3, 4, 5}, LevelSet={1, 2}, Alphabet=AB, CapSet={2, 3, 100})}
+MODEL = {"quick": dict(NSet={1, 2, 3, 4}, LevelSet={1, 2}, Alphabet=AB, CapSet={2, 100}, SpellSet={"plain"}, OrderSet={"asc"}),
+         "thorough": dict(NSet={1, 2, 3, 4, 5}, LevelSet={1, 2}, Alphabet=AB, CapSet={2, 3, 100}, SpellSet={"plain"}, OrderSet={"asc"})}
 JUDGE = ["C13_Blank", "C13_Others", "C13_Reject", "C13_FillDown", "C13_Rows"]
 
 
